@@ -580,8 +580,8 @@ class Emitter:
                 ct = self.T.c(qt)
             except ExtractError:
                 continue   # constants of library types that the bodies never use by value (checked at use)
-            if ct == 'int' and name in ('kRelaxed', 'kAcquire', 'kRelease'):
-                continue   # mapped directly to VERIF_MEMORY_ORDER_* at the use sites
+            if 'memory_order' in qt:
+                continue   # resolved to VERIF_MEMORY_ORDER_* from the initialiser at the use sites
             if name in self.tu.symbolic:
                 self.w('extern const %s %s; /* symbolic build-time constant */' % (ct, name))
                 continue
@@ -1261,9 +1261,22 @@ class Emitter:
             if rid in self.tu.globals:
                 return self.tu.globals[rid]
             if rn in self.tu.consts:
-                if rn in ('kRelaxed', 'kAcquire', 'kRelease'):
-                    return {'kRelaxed': 'VERIF_MEMORY_ORDER_RELAXED', 'kAcquire': 'VERIF_MEMORY_ORDER_ACQUIRE',
-                            'kRelease': 'VERIF_MEMORY_ORDER_RELEASE'}[rn]
+                qt, init = self.tu.consts[rn]
+                if 'memory_order' in qt:
+                    # an alias of a std::memory_order value: resolved from its INITIALISER (never from its name)
+                    found = []
+
+                    def walk(n):
+                        if isinstance(n, dict):
+                            d = n.get('referencedDecl', {})
+                            if n.get('kind') == 'DeclRefExpr' and str(d.get('name', '')).startswith('memory_order_'):
+                                found.append(d['name'])
+                            for c in n.get('inner', []) or []:
+                                walk(c)
+                    walk(init)
+                    if len(found) != 1:
+                        die('memory-order constant %s: initialiser is not a single std::memory_order_* value' % rn, e)
+                    return 'VERIF_' + found[0].upper()
                 return rn
             die('reference to unknown variable %s' % rn, e)
         if rk in ('FunctionDecl', 'CXXMethodDecl'):
